@@ -1,4 +1,5 @@
-(* C14 -- NoteEvent.play, rests, the EventStreamPlayer loop, Pdur and one step of Ppar. *)
+(* C14 -- NoteEvent.play, rests, the EventStreamPlayer loop, the tolerance test of Pdur, one step of Ppar,
+   witnesses of the defects of the code as released. *)
 From Coq Require Import String List Morphisms.
 Require Import SC3.proofs.NumTac SC3.gen.Gen_builtins SC3.proofs.C12_num SC3.proofs.C15_general SC3.model.TaskQ SC3.model.Event.
 Import ListNotations.
@@ -106,6 +107,30 @@ Proof.
   intros K d e. unfold ev_call. rewrite get_put_neq by reflexivity. rewrite get_put_same. reflexivity.
 Qed.
 
+(* the statement of the property file *)
+Lemma note_play_commands_l : forall K lib lat now node e d,
+  lib_at (sym_of (ev_call K (put "freq" (VNum (detuned_freq K e)) e) "instrument")) lib = Some d ->
+  get "send_gate" e = None ->
+  let ps := sent_params K d e in
+  let e2 := played K d ps e in
+  let snew := (stamp now lat, MNew (sym_of (ev_call K e2 "instrument")) node (action_number (ev_call K e2 "add_action"))
+                                   (vnum (ev_call K e2 "group")) ps) in
+  play_note K lib lat now node e =
+    (if d_has_gate d
+     then [snew; (stamp now (lat + toQ (vnum (ev_call K e2 "sustain"))), MSet node [("gate"%string, I 0)])]
+     else [snew]) /\
+  (forall a x, In (a, x) ps <-> In a (sent_names d) /\
+       has a (put "has_gate" (VBool (d_has_gate d)) (put "freq" (VNum (detuned_freq K e)) e)) = true /\
+       x = vnum (ev_call K (put "has_gate" (VBool (d_has_gate d)) (put "freq" (VNum (detuned_freq K e)) e)) a)) /\
+  (forall t, 0 <= t -> stamp now t == now + t).
+Proof.
+  intros K lib lat now node e d Hlib Hsg ps e2 snew. split; [exact (note_play_l K lib lat now node e d Hlib Hsg)|].
+  split; [|intros t Ht; exact (stamp_nonneg now t Ht)].
+  intros a x. split.
+  - apply sent_params_sound.
+  - intros [H1 [H2 H3]]. subst x. apply sent_params_complete; assumption.
+Qed.
+
 (* ---- the player ---------------------------------------------------------------------------------------- *)
 Fixpoint evs (log : list entry) : list (Q * event) :=
   match log with
@@ -170,50 +195,8 @@ Qed.
 Section Dur.
 Variables (c : cfg) (K : kern) (lib : synthlib).
 
-(* the events of a Pdur stream and whether it ended by cutting the last delta *)
-Fixpoint dur_run (fuel dep : nat) (elapsed d : num) (s : st) (inev : event) (mc : nat) : list event * bool :=
-  match fuel with
-  | O => ([], false)
-  | S f =>
-    match snext c K lib (S dep) (SDur elapsed d s) inev mc with
-    | (RYield e (SDur el' d' s') _, mc') => let r := dur_run f dep el' d' s' inev mc' in (e :: fst r, snd r)
-    | (RYield e (SDurEnd _) _, _) => ([e], true)
-    | _ => ([], false)
-    end
-  end.
-
 Lemma tolerance_pos : 0 < toQ tolerance.
 Proof. reflexivity. Qed.
-
-Lemma pdur_sum_l : fix_pdur_int c = true ->
-  forall fuel dep elapsed d s inev mc x dq,
-  val elapsed x -> val d dq ->
-  Forall (fun e => ok (vnum (ev_call K e "delta"))) (fst (dur_run fuel dep elapsed d s inev mc)) ->
-  snd (dur_run fuel dep elapsed d s inev mc) = true ->
-  qsum (map (delta_q K) (fst (dur_run fuel dep elapsed d s inev mc))) == dq - x.
-Proof.
-  intros Hfix fuel. induction fuel as [|f IH]; intros dep elapsed d s inev mc x dq Hx Hd Hok Hcut.
-  - cbn in Hcut. discriminate.
-  - cbn [dur_run] in *. cbn [snext] in *.
-    destruct (snext c K lib dep s inev mc) as [[e0 s'' o|o|] mc']; try (cbn in Hcut; discriminate).
-    destruct (negb (fix_pdur_event c) && negb (is_evt e0)); [cbn in Hcut; discriminate|].
-    set (e := if fix_pdur_event c then as_event e0 else e0) in *.
-    destruct (nge (py_roundup (nadd elapsed (pfloat (vnum (ev_call K e "delta")))) tolerance) d) eqn:G.
-    + (* the cut: delta := local_dur - elapsed *)
-      cbn [fst snd map qsum] in *.
-      pose proof (val_nsub _ _ _ _ Hd Hx) as Hr.
-      unfold delta_q. rewrite ev_call_put_same.
-      rewrite Hfix.
-      destruct (ev_call K e "delta") as [[z|q|]|n| | | | | |]; cbn [vnum];
-        try (destruct Hr as [_ Hr]; rewrite Hr; ring).
-      all: destruct (val_pfloat _ _ Hr) as [[_ Hp] _]; rewrite Hp; ring.
-    + cbn [fst snd map qsum] in *.
-      inversion Hok as [|? ? Hok1 Hok2]; subst.
-      assert (Vd : val (vnum (ev_call K e "delta")) (toQ (vnum (ev_call K e "delta")))) by (apply val_refl; exact Hok1).
-      destruct (val_pfloat _ _ Vd) as [Vf _].
-      pose proof (val_nadd _ _ _ _ Hx Vf) as Hn.
-      rewrite (IH _ _ _ _ _ _ _ _ Hn Hd Hok2 Hcut). unfold delta_q. ring.
-Qed.
 
 (* the cut is taken by the first event whose end reaches dur (bi.roundup never rounds down) *)
 Lemma pdur_cut_when_reached : forall elapsed delta d x y dq,
